@@ -57,7 +57,7 @@ def gen_f(r: random.Random, m: dict) -> dict:
     if kind < 0.1:
         return {}
     dom = [k for k in keys if r.random() < (0.75 if kind < 0.8 else 0.3)]
-    targets = r.sample(range(0, 200), len(dom))
+    targets = r.sample(range(0, max(200, 2 * len(dom) + 10)), len(dom))
     if kind < 0.5:
         targets.sort()
     return dict(zip(dom, targets))
